@@ -170,6 +170,15 @@ func init() { zzHarnesses["zzH_C15"] = zzH_C15 }
 func zzH_C15() {
 	if zzParam("opaque") == "1" {
 		zzOpaqueInit(zzOpaqueProtos())
+		// earlier failures on ordinary JSON values of every container kind, and on another struct and
+		// pointer type: the type named by a later error must still be the type of the value it is about
+		Retrieve("$.a", []interface{}{1.0})
+		Retrieve("$[0]", map[string]interface{}{"a": 1.0})
+		Retrieve("$.a", zzOpNested{})
+		var other *zzOpStruct
+		Retrieve("$.a", other)
+		Retrieve("$.a", "s")
+		Retrieve("$.a", 1.0)
 	}
 	zzDeclHoles()
 	path := zzPath("path")
